@@ -694,6 +694,8 @@ def run(chk, tier, only_rule=None):
     r02_5(chk, facts)
     r02_7(chk, facts)
     r02_8(chk, facts)
+    from . import c03
+    c03.r03_13(chk, facts)     # a string that starts is scanned from the start label (texts delivered in pieces are accepted iff the whole is)
     r02_9(chk, facts)
     r02_10(chk, facts)
     # a number or string token may straddle two chunks: the resume rule of C03 is a necessary condition of accepting the same texts
